@@ -1,2 +1,6 @@
-import TjdProps.C14
 import TjdProps.C01
+import TjdProps.C01Example
+import TjdProps.C05
+import TjdProps.C07
+import TjdProps.C14
+import TjdProps.C15
